@@ -119,6 +119,27 @@ def build_grid(ctx, rnd):
     add({2: Fraction(-45), 5: Fraction(-45)}, "10^-45")
     add({2: Fraction(-46), 5: Fraction(-46)}, "10^-46")
     add({2: Fraction(-324), 5: Fraction(-324)}, "10^-324")
+    # two large primes that are close together in ONE magnitude: the ordering of bases must tell
+    # them apart exactly (they coincide after rounding to double, or to float)
+    def next_prime(n):
+        while not model.is_prime(n):
+            n += 1
+        return n
+
+    def prev_prime(n):
+        while not model.is_prime(n):
+            n -= 1
+        return n
+    near = []
+    for start in (2 ** 53 + 1, 2 ** 60 + 1, 2 ** 63 + 1, 2 ** 24 + 1, 2 ** 31 + 1):
+        a = next_prime(start)
+        near.append((a, next_prime(a + 1)))
+    a = prev_prime(2 ** 64 - 1)
+    near.append((prev_prime(a - 1), a))
+    for (a, b) in near:
+        add({a: Fraction(1), b: Fraction(1)}, "product of neighbouring primes %d, %d" % (a, b))
+        add({a: Fraction(1), b: Fraction(-1)}, "quotient of neighbouring primes %d, %d" % (a, b))
+        add({a: Fraction(-1), b: Fraction(2)}, "q^2/p of neighbouring primes %d, %d" % (a, b))
     # products with pi and mixed exponents
     n = 400 if ctx.thorough else 60
     for _ in range(n):
